@@ -58,8 +58,8 @@ private theorem applyInto_at (F : Bytes → Bytes) (A Z src : Bytes) (h : src.le
 theorem aesctr_newCipher_eq (ivSize : Int) (iv : Bytes) :
     Aesctr.newCipher ivSize iv =
       if iv.length < 16 then (if (iv.length : Int) = ivSize then some (Aead.padIV iv) else none) else some iv := by
-  simp only [Aesctr.newCipher, Aesctr.newCipher.n, Aesctr.newCipher.iv, Aesctr.newCipher.paddedIV_2,
-    Aesctr.newCipher.paddedIV, len_eq]
+  simp only [Aesctr.newCipher, Aesctr.newCipher.v3, Aesctr.newCipher.v4, Aesctr.newCipher.v2,
+    Aesctr.newCipher.v1, len_eq]
   by_cases h : iv.length < 16
   · have h' : (iv.length : Int) < 16 := by omega
     have hm : min (((makeBytes 16).length : Int) - 0) (iv.length : Int) = (iv.length : Int) := by
@@ -118,11 +118,11 @@ theorem aesctr_Encrypt_dst (ctr : Bytes → Bytes → Bytes) (rand : Int → Byt
     Aesctr.Encrypt ctr rand ivSize dst pt
       = some (rand ivSize ++ ctr (Aead.padIV (rand ivSize)) pt ++ dst.drop (ivSize + pt.length)) := by
   have h0 : ¬ ((dst.length : Int) = 0) := by omega
-  have hd2 : Aesctr.Encrypt.dst_2 ctr rand ivSize dst pt = dst := by
-    simp only [Aesctr.Encrypt.dst_2, len_eq, h0, ↓reduceIte]
+  have hd2 : Aesctr.Encrypt.v3 ctr rand ivSize dst pt = dst := by
+    simp only [Aesctr.Encrypt.v3, len_eq, h0, ↓reduceIte]
   have hg2 : ¬ ((dst.length : Int) < ((pt.length + ivSize : Nat) : Int)) := by omega
-  simp only [Aesctr.Encrypt, Aesctr.Encrypt.opt_stream, Aesctr.Encrypt.dst_4, Aesctr.Encrypt.dst_3,
-    Aesctr.Encrypt.iv_lo, Aesctr.Encrypt.iv_hi, Aesctr.Encrypt.ctSize, hd2, len_eq, Int.sub_zero]
+  simp only [Aesctr.Encrypt, Aesctr.Encrypt.v7, Aesctr.Encrypt.v8, Aesctr.Encrypt.v6,
+    Aesctr.Encrypt.v4, Aesctr.Encrypt.v5, Aesctr.Encrypt.v1, hd2, len_eq, Int.sub_zero]
   simp only [encrypt_guard pt.length ivSize hiv hlen, encrypt_ctSize pt.length ivSize hlen, hg2, ↓reduceIte]
   exact encrypt_core ctr (rand ivSize) dst pt ivSize hiv hrand hfit
 
@@ -130,13 +130,13 @@ theorem aesctr_Encrypt_nil (ctr : Bytes → Bytes → Bytes) (rand : Int → Byt
     (hiv : ivSize ≤ 16) (hlen : pt.length + ivSize < 9223372036854775808)
     (hrand : (rand ivSize).length = ivSize) :
     Aesctr.Encrypt ctr rand ivSize [] pt = some (rand ivSize ++ ctr (Aead.padIV (rand ivSize)) pt) := by
-  have hd2 : Aesctr.Encrypt.dst_2 ctr rand ivSize [] pt = Bytes.zeros (pt.length + ivSize) := by
-    simp only [Aesctr.Encrypt.dst_2, Aesctr.Encrypt.dst, Aesctr.Encrypt.ctSize, len_eq, List.length_nil,
+  have hd2 : Aesctr.Encrypt.v3 ctr rand ivSize [] pt = Bytes.zeros (pt.length + ivSize) := by
+    simp only [Aesctr.Encrypt.v3, Aesctr.Encrypt.v2, Aesctr.Encrypt.v1, len_eq, List.length_nil,
       Int.natCast_zero, ↓reduceIte]
     rw [encrypt_ctSize pt.length ivSize hlen, makeBytes_natCast]
   have hg2 : ¬ (((pt.length + ivSize : Nat) : Int) < ((pt.length + ivSize : Nat) : Int)) := by omega
-  simp only [Aesctr.Encrypt, Aesctr.Encrypt.opt_stream, Aesctr.Encrypt.dst_4, Aesctr.Encrypt.dst_3,
-    Aesctr.Encrypt.iv_lo, Aesctr.Encrypt.iv_hi, Aesctr.Encrypt.ctSize, hd2, len_eq, Int.sub_zero,
+  simp only [Aesctr.Encrypt, Aesctr.Encrypt.v7, Aesctr.Encrypt.v8, Aesctr.Encrypt.v6,
+    Aesctr.Encrypt.v4, Aesctr.Encrypt.v5, Aesctr.Encrypt.v1, hd2, len_eq, Int.sub_zero,
     Bytes.length_zeros]
   simp only [encrypt_guard pt.length ivSize hiv hlen, encrypt_ctSize pt.length ivSize hlen, hg2, ↓reduceIte]
   have := encrypt_core ctr (rand ivSize) (Bytes.zeros (pt.length + ivSize)) pt ivSize hiv hrand (by simp)
@@ -155,10 +155,10 @@ theorem aesctr_Encrypt_small (ctr : Bytes → Bytes → Bytes) (rand : Int → B
     (hdst : dst.length ≠ 0) (hsmall : dst.length < pt.length + ivSize) :
     Aesctr.Encrypt ctr rand ivSize dst pt = none := by
   have h0 : ¬ ((dst.length : Int) = 0) := by omega
-  have hd2 : Aesctr.Encrypt.dst_2 ctr rand ivSize dst pt = dst := by
-    simp only [Aesctr.Encrypt.dst_2, len_eq, h0, ↓reduceIte]
+  have hd2 : Aesctr.Encrypt.v3 ctr rand ivSize dst pt = dst := by
+    simp only [Aesctr.Encrypt.v3, len_eq, h0, ↓reduceIte]
   have hg2 : (dst.length : Int) < ((pt.length + ivSize : Nat) : Int) := by omega
-  simp only [Aesctr.Encrypt, Aesctr.Encrypt.ctSize, hd2, len_eq]
+  simp only [Aesctr.Encrypt, Aesctr.Encrypt.v1, hd2, len_eq]
   simp only [encrypt_guard pt.length ivSize hiv hlen, encrypt_ctSize pt.length ivSize hlen, hg2, ↓reduceIte]
 
 /-! ### Decrypt -/
@@ -182,13 +182,13 @@ theorem aesctr_Decrypt_nil (ctr : Bytes → Bytes → Bytes) (ivSize : Nat) (ct 
     (hiv : ivSize ≤ 16) (hlen : ct.length < 9223372036854775808)
     (hct : ivSize ≤ ct.length) :
     Aesctr.Decrypt ctr ivSize [] ct = some (ctr (Aead.padIV (ct.take ivSize)) (ct.drop ivSize)) := by
-  have hd2 : Aesctr.Decrypt.dst_2 ctr ivSize [] ct = Bytes.zeros (ct.length - ivSize) := by
-    simp only [Aesctr.Decrypt.dst_2, Aesctr.Decrypt.dst, Aesctr.Decrypt.ptSize, len_eq, List.length_nil,
+  have hd2 : Aesctr.Decrypt.v3 ctr ivSize [] ct = Bytes.zeros (ct.length - ivSize) := by
+    simp only [Aesctr.Decrypt.v3, Aesctr.Decrypt.v2, Aesctr.Decrypt.v1, len_eq, List.length_nil,
       Int.natCast_zero, ↓reduceIte]
     rw [decrypt_ptSize ct.length ivSize hct hlen, makeBytes_natCast]
   have hg1 : ¬ ((ct.length : Int) < (ivSize : Int)) := by omega
   have hg2 : ¬ (((ct.length - ivSize : Nat) : Int) < ((ct.length - ivSize : Nat) : Int)) := by omega
-  simp only [Aesctr.Decrypt, Aesctr.Decrypt.opt_stream, Aesctr.Decrypt.dst_3, Aesctr.Decrypt.ptSize, hd2]
+  simp only [Aesctr.Decrypt, Aesctr.Decrypt.v4, Aesctr.Decrypt.v5, Aesctr.Decrypt.v1, hd2]
   simp only [len_eq, Bytes.length_zeros]
   simp only [hg1, decrypt_ptSize ct.length ivSize hct hlen, hg2, ↓reduceIte]
   have := decrypt_core ctr (Bytes.zeros (ct.length - ivSize)) ct ivSize hiv hct (by simp)
@@ -201,11 +201,11 @@ theorem aesctr_Decrypt_dst (ctr : Bytes → Bytes → Bytes) (ivSize : Nat) (dst
     Aesctr.Decrypt ctr ivSize dst ct
       = some (ctr (Aead.padIV (ct.take ivSize)) (ct.drop ivSize) ++ dst.drop (ct.length - ivSize)) := by
   have h0 : ¬ ((dst.length : Int) = 0) := by omega
-  have hd2 : Aesctr.Decrypt.dst_2 ctr ivSize dst ct = dst := by
-    simp only [Aesctr.Decrypt.dst_2, len_eq, h0, ↓reduceIte]
+  have hd2 : Aesctr.Decrypt.v3 ctr ivSize dst ct = dst := by
+    simp only [Aesctr.Decrypt.v3, len_eq, h0, ↓reduceIte]
   have hg1 : ¬ ((ct.length : Int) < (ivSize : Int)) := by omega
   have hg2 : ¬ ((dst.length : Int) < ((ct.length - ivSize : Nat) : Int)) := by omega
-  simp only [Aesctr.Decrypt, Aesctr.Decrypt.opt_stream, Aesctr.Decrypt.dst_3, Aesctr.Decrypt.ptSize, hd2]
+  simp only [Aesctr.Decrypt, Aesctr.Decrypt.v4, Aesctr.Decrypt.v5, Aesctr.Decrypt.v1, hd2]
   simp only [len_eq]
   simp only [hg1, decrypt_ptSize ct.length ivSize hct hlen, hg2, ↓reduceIte]
   have := decrypt_core ctr dst ct ivSize hiv hct hfit
@@ -217,11 +217,11 @@ theorem aesctr_Decrypt_small (ctr : Bytes → Bytes → Bytes) (ivSize : Nat) (d
     (hct : ivSize ≤ ct.length) (hdst : dst.length ≠ 0) (hsmall : dst.length < ct.length - ivSize) :
     Aesctr.Decrypt ctr ivSize dst ct = none := by
   have h0 : ¬ ((dst.length : Int) = 0) := by omega
-  have hd2 : Aesctr.Decrypt.dst_2 ctr ivSize dst ct = dst := by
-    simp only [Aesctr.Decrypt.dst_2, len_eq, h0, ↓reduceIte]
+  have hd2 : Aesctr.Decrypt.v3 ctr ivSize dst ct = dst := by
+    simp only [Aesctr.Decrypt.v3, len_eq, h0, ↓reduceIte]
   have hg1 : ¬ ((ct.length : Int) < (ivSize : Int)) := by omega
   have hg2 : (dst.length : Int) < ((ct.length - ivSize : Nat) : Int) := by omega
-  simp only [Aesctr.Decrypt, Aesctr.Decrypt.ptSize, hd2, len_eq]
+  simp only [Aesctr.Decrypt, Aesctr.Decrypt.v1, hd2, len_eq]
   simp only [hg1, decrypt_ptSize ct.length ivSize hct hlen, hg2, ↓reduceIte]
 
 theorem aesctr_Decrypt_short (ctr : Bytes → Bytes → Bytes) (ivSize : Nat) (dst ct : Bytes)
